@@ -793,4 +793,192 @@ theorem link_run_allPlaced (ks2 : List Key) (t : Tree)
   obtain ⟨r, hr⟩ := this
   exact ⟨r, foldl_step2_resolves_link true nk r b _ hr⟩
 
+/-! ### clean-up mode: a second run changes nothing -/
+
+/-- entries are only ever removed by the first pass. -/
+theorem step1_entry {t : Tree} {a j : Key} {e : Entry} (h : step1 t a j = some e) : t j = some e := by
+  rcases step1_cases t a with e' | ⟨_, _, e'⟩
+  · rw [e'] at h; exact h
+  · rw [e'] at h
+    by_cases hj : j = a
+    · subst hj; simp [upd_same] at h
+    · rwa [upd_other t none hj] at h
+
+theorem foldl_step1_entry {ks : List Key} : ∀ {t : Tree} {j : Key} {e : Entry}, ks.foldl step1 t j = some e → t j = some e := by
+  induction ks with
+  | nil => intro t j e h; exact h
+  | cons a ks ih => intro t j e h; exact step1_entry (ih h)
+
+/-- every link points directly at an existing directory (what earlier `--fix` runs produce). -/
+def LinksDirect (t : Tree) : Prop := ∀ j g, t j = some (.link g) → ∃ d p, t g = some (.dir d p)
+/-- every link points directly at a directory without `params.json`. -/
+def LinksToAbsent (t : Tree) : Prop := ∀ j g, t j = some (.link g) → ∃ d, t g = some (.dir d .absent)
+
+theorem globbed_direct {t : Tree} {j g : Key} {d p} (hj : t j = some (.link g)) (hg : t g = some (.dir d p)) (hp : p ≠ .absent) :
+    globbed t j = true := by
+  unfold globbed
+  rw [show depth = 39 + 1 + 1 from rfl, resolve_at_link hj, resolve_at_dir hg]
+  cases p <;> simp_all
+
+theorem phase1_linksToAbsent (ks1 : List Key) (t : Tree) (hld : LinksDirect t)
+    (hcov : ∀ j, isLink t j = true → globbed t j = true → j ∈ ks1) : LinksToAbsent (ks1.foldl step1 t) := by
+  intro j g hj
+  have htj : t j = some (.link g) := foldl_step1_entry hj
+  obtain ⟨d, p, hg⟩ := hld j g htj
+  have hgf : ks1.foldl step1 t g = some (.dir d p) := foldl_step1_dir hg
+  by_cases hp : p = .absent
+  · subst hp; exact ⟨d, hgf⟩
+  · exfalso
+    have hmem := hcov j (isLink_iff.mpr ⟨g, htj⟩) (globbed_direct htj hg hp)
+    obtain ⟨a, b, e⟩ := List.append_of_mem hmem
+    rw [e, List.foldl_append, List.foldl_cons] at hj
+    have hs1 : step1 (a.foldl step1 t) j j = some (.link g) := foldl_step1_entry hj
+    have hs : a.foldl step1 t j = some (.link g) := step1_entry hs1
+    have hsg : a.foldl step1 t g = some (.dir d p) := foldl_step1_dir hg
+    have : step1 (a.foldl step1 t) j = upd (a.foldl step1 t) j none := by
+      generalize a.foldl step1 t = s at hs hsg
+      rcases step1_cases s j with e' | ⟨_, _, e'⟩
+      · exfalso
+        unfold step1 at e'
+        rw [isLink_iff.mpr ⟨g, hs⟩, globbed_direct hs hsg hp] at e'
+        have := congrFun e' j
+        simp only [Bool.and_self, if_true] at this
+        rw [upd_same, hs] at this
+        simp at this
+      · exact e'
+    rw [this, upd_same] at hs1
+    simp at hs1
+
+theorem rmDangling_entry {t : Tree} {x j : Key} {e : Entry} (h : rmDangling t x j = some e) : t j = some e := by
+  rcases rmDangling_cases t x with e' | ⟨_, _, e'⟩
+  · rw [e'] at h; exact h
+  · rw [e'] at h
+    by_cases hj : j = x
+    · subst hj; simp [upd_same] at h
+    · rwa [upd_other t none hj] at h
+
+theorem step2_linksToAbsent (fx : Bool) (t : Tree) (a : Key) (h : LinksToAbsent t) : LinksToAbsent (step2 fx true t a) := by
+  rcases step2_eq_or fx true t a with e | ⟨d0, na, _, ha, hnea, _, hfree, e⟩
+  · rw [e]; exact h
+  · rw [e]
+    intro j g hj
+    simp only [placed, if_true] at hj ⊢
+    have hja : j ≠ a := by intro e'; subst e'; rw [upd_same] at hj; simp at hj
+    rw [upd_other _ _ hja] at hj
+    have hjna : j ≠ na := by intro e'; subst e'; rw [upd_same] at hj; simp at hj
+    rw [upd_other _ _ hjna] at hj
+    obtain ⟨d, hg⟩ := h j g (rmDangling_entry hj)
+    have hg1 := rmDangling_dir (x := na) hg
+    have hga : g ≠ a := by intro e'; subst e'; rw [ha] at hg; simp at hg
+    have hgna : g ≠ na := by intro e'; subst e'; rw [hfree] at hg1; simp at hg1
+    exact ⟨d, by rw [upd_other _ _ hga, upd_other _ _ hgna]; exact hg1⟩
+
+theorem noGlobbed_of_linksToAbsent {t : Tree} (h : LinksToAbsent t) : NoGlobbedLink t := by
+  intro j hl
+  obtain ⟨g, hj⟩ := isLink_iff.mp hl
+  obtain ⟨d, hg⟩ := h j g hj
+  unfold globbed
+  rw [show depth = 39 + 1 + 1 from rfl, resolve_at_link hj, resolve_at_dir hg]
+  simp [hg]
+
+/-- a directory that is where its own `params.json` says (or has none that loads). -/
+def Settled (t : Tree) (r : Key) : Prop := ∀ d n, t r = some (.dir d (.ok n)) → n.2 = r.2
+
+/-- the location leads to a directory that will not move any more. -/
+def Anchored (x : Key) (t : Tree) : Prop := ∃ r, resolve t depth x = some r ∧ Settled t r
+
+theorem step2_anchored (fx cl : Bool) (x : Key) (t : Tree) (a : Key) (h : Anchored x t) : Anchored x (step2 fx cl t a) := by
+  obtain ⟨r, hr, hs⟩ := h
+  rcases step2_eq_or fx cl t a with e | ⟨d0, na, _, ha, hnea, _, hfree, e⟩
+  · rw [e]; exact ⟨r, hr, hs⟩
+  · rw [e]
+    obtain ⟨dr, pr, hdr⟩ := resolve_dir hr
+    have hra : r ≠ a := by
+      intro e'; subst e'
+      exact hnea (hs d0 na ha)
+    have hr1d := rmDangling_dir (x := na) hdr
+    have hrna : r ≠ na := by intro e'; subst e'; rw [hfree] at hr1d; simp at hr1d
+    have hr1 : resolve (rmDangling t na) depth x = some r := rmDangling_resolve (Nat.le_refl _) hr
+    refine ⟨r, ?_, ?_⟩
+    · cases cl with
+      | false =>
+        simp only [placed, Bool.false_eq_true, if_false]
+        exact resolve_upd_absent _ hfree hr1
+      | true =>
+        simp only [placed, if_true]
+        have hana : a ≠ na := (key_ne_of_snd hnea).symm
+        have hda : upd (rmDangling t na) na (some (.dir d0 (.ok na))) a = some (.dir d0 (.ok na)) := by
+          rw [upd_other _ _ hana]; exact rmDangling_dir ha
+        exact resolve_rm_dir hda hra (resolve_upd_absent _ hfree hr1)
+    · intro d n hd
+      have : placed cl t a d0 na r = some (.dir dr pr) := by
+        cases cl with
+        | false => simp only [placed, Bool.false_eq_true, if_false]; rw [upd_other _ _ hrna]; exact hr1d
+        | true => simp only [placed, if_true]; rw [upd_other _ _ hra, upd_other _ _ hrna]; exact hr1d
+      rw [this] at hd
+      simp only [Option.some.injEq, Entry.dir.injEq] at hd
+      exact hs dr n (by rw [hdr, hd.2])
+
+/-- a directory sitting at another directory's new location is itself up to date. -/
+def NoStaleSquatter (t : Tree) : Prop :=
+  ∀ k d nk, t k = some (.dir d (.ok nk)) → nk.2 ≠ k.2 → ∀ e n, t nk = some (.dir e (.ok n)) → n.2 = nk.2
+
+theorem cleanup_run_allPlaced (ks1 ks2 : List Key) (t : Tree) (hld : LinksDirect t)
+    (hc1 : ∀ j, isLink t j = true → globbed t j = true → j ∈ ks1)
+    (hc2 : ∀ k d nk, t k = some (.dir d (.ok nk)) → nk.2 ≠ k.2 → k ∈ ks2)
+    (hns : NoStaleSquatter t) : AllPlaced (fixTree true true ks1 ks2 t) := by
+  intro k d nk hk hne
+  unfold fixTree at hk ⊢
+  have hp1 : phase1 true ks1 t = ks1.foldl step1 t := by simp [phase1]
+  obtain ⟨k0, hk0, hor⟩ := foldl_step2_dir_inv true true hk
+  have : k0 = k := by
+    rcases hor with e | ⟨_, e⟩
+    · exact e
+    · simp only [Params.ok.injEq] at e; subst e; exact absurd rfl hne
+  subst this
+  have htk : t k0 = some (.dir d (.ok nk)) := phase1_dir_inv hk0
+  obtain ⟨a, b, e, hn⟩ := exists_first (hc2 k0 d nk htk hne)
+  have hs : a.foldl (step2 true true) (phase1 true ks1 t) k0 = some (.dir d (.ok nk)) :=
+    foldl_step2_dir_stays true true hn hk0
+  have hlta : LinksToAbsent (a.foldl (step2 true true) (phase1 true ks1 t)) := by
+    apply foldl_inv LinksToAbsent _ (fun b a hb => step2_linksToAbsent true b a hb)
+    rw [hp1]; exact phase1_linksToAbsent ks1 t hld hc1
+  rw [e, List.foldl_append, List.foldl_cons]
+  rcases step2_reaches true _ k0 d nk hs hne with g | ⟨r, hr, _⟩
+  · obtain ⟨r, hr, _⟩ := good_resolves (foldl_step2_good true true b _ g)
+    exact ⟨r, hr⟩
+  · -- blocked: the location leads to a directory that never moves
+    have hanch : Anchored nk (a.foldl (step2 true true) (phase1 true ks1 t)) := by
+      refine ⟨r, hr, ?_⟩
+      intro e' n he
+      cases hnk : a.foldl (step2 true true) (phase1 true ks1 t) nk with
+      | none => rw [resolve_at_none hnk] at hr; simp at hr
+      | some ent =>
+        cases ent with
+        | link g =>
+          obtain ⟨dg, hg⟩ := hlta nk g hnk
+          rw [show depth = 39 + 1 + 1 from rfl, resolve_at_link hnk, resolve_at_dir hg] at hr
+          simp only [Option.some.injEq] at hr; subst hr
+          rw [hg] at he; simp at he
+        | dir e2 p2 =>
+          rw [show depth = 40 + 1 from rfl, resolve_at_dir hnk] at hr
+          simp only [Option.some.injEq] at hr; subst hr
+          obtain ⟨k1, hk1, hor1⟩ := foldl_step2_dir_inv true true he
+          rcases hor1 with e1 | ⟨_, e1⟩
+          · subst e1
+            exact hns k0 d k1 htk hne e' n (phase1_dir_inv hk1)
+          · simp only [Params.ok.injEq] at e1; rw [e1]
+    have := foldl_inv (Anchored nk) _ (fun b a hb => step2_anchored true true nk b a hb) (k0 :: b) _ hanch
+    obtain ⟨r', hr', _⟩ := this
+    rw [List.foldl_cons] at hr'
+    exact ⟨r', hr'⟩
+
+theorem cleanup_run_noGlobbed (ks1 ks2 : List Key) (t : Tree) (hld : LinksDirect t)
+    (hc1 : ∀ j, isLink t j = true → globbed t j = true → j ∈ ks1) : NoGlobbedLink (fixTree true true ks1 ks2 t) := by
+  apply noGlobbed_of_linksToAbsent
+  unfold fixTree
+  apply foldl_inv LinksToAbsent _ (fun b a hb => step2_linksToAbsent true b a hb)
+  have hp1 : phase1 true ks1 t = ks1.foldl step1 t := by simp [phase1]
+  rw [hp1]; exact phase1_linksToAbsent ks1 t hld hc1
+
 end XpmVerif.Deprecated
